@@ -1,5 +1,5 @@
 from .. import facts
-from ..rules import algebra, factors
+from ..rules import algebra, factors, floatmask
 
 
 def run(ck):
@@ -8,5 +8,7 @@ def run(ck):
     algebra.r1_slots(ck, P)
     algebra.r2_float_factors(ck, P)
     algebra.r3_table_lengths(ck, P)
-    factors.r4_c_combiners(ck, P)
+    decided = factors.r4_c_combiners(ck, P)
     factors.r9_simd_combiners(ck, P)
+    floatmask.r5_float_mask(ck, P)
+    floatmask.r6_c_mask(ck, P, decided or ())
